@@ -359,14 +359,22 @@ def run_s2c(prop, tier, seed, opts):
                     f0.get("run"), f0.get("src"), f0.get("why"), f0.get("got"), f0.get("want"), sorted(V.fail_tags(r))))
             print("TRIAGE total unexplained failing cases: %d" % len(unexplained))
         confirmed = 0
+        attempts = in_context = 0
+        t_conf = time.time()
         for (r, line, cmd) in unexplained:
-            if confirmed >= 10:
+            # (a hang costs its whole time limit again: one confirmed verdict is enough once five minutes have gone)
+            if confirmed >= 10 or attempts >= 40 or (confirmed >= 1 and time.time() - t_conf > 300) or time.time() - t_conf > 1200:
                 break
             if line is None:
                 continue
+            attempts += 1
             r2 = confirm_alone(harness, scratch, line, cmd=cmd)
             context = None
+            if (r2 is None or r2["pass"]) and in_context >= 6:
+                notes.append("NOTE failure not reproduced alone: %s" % r.get("src"))
+                continue
             if r2 is None or r2["pass"]:
+                in_context += 1
                 # not a property of the case alone: does it follow from what ran in the same process before it?
                 r2, context = confirm_in_context(harness, scratch, r.get("key"), r.get("_context"), cmd=cmd, extra_args=r.get("_args", ()))
                 if r2 is None:
